@@ -52,7 +52,9 @@ def use_repo():
     p = str(REPO)
     if sys.path[0] != p:
         sys.path.insert(0, p)
-    os.environ["PYTHONPATH"] = p + os.pathsep + os.environ.get("PYTHONPATH", "")
+    cur = os.environ.get("PYTHONPATH", "")
+    if cur.split(os.pathsep)[0] != p:  # called once per scenario by some harnesses: never grow the variable
+        os.environ["PYTHONPATH"] = p + (os.pathsep + cur if cur else "")
     import joblib  # noqa
 
     got = Path(joblib.__file__).resolve().parent.parent
